@@ -22,6 +22,36 @@ def flatSetEq (xs ys : List (QName × Value)) : Bool :=
 def recEq (a b : Record) : Bool :=
   a.kind == b.kind && optSame a.id b.id && flatSetEq a.flat b.flat
 
+/-- what Python's `hash` of a stored value is a function of: `hash(str)`, the exact rational value of a number
+    (`hash(1) == hash(1.0) == hash(True)`), the time line position of a datetime, `hash((uri, Identifier))`,
+    `hash(self.uri)` for a QualifiedName (the hash of a string), `hash((value, datatype, langtag))` for a Literal -/
+inductive HKey where
+  | str (s : String)
+  | num (q : Rat)
+  | dtNaive (i : Int)
+  | dtAware (i : Int)
+  | ident (u : String)
+  | lit (v : String) (ty : Option String) (lang : Option String)
+  deriving DecidableEq
+
+def Value.hkey : Value → HKey
+  | .str s => .str s
+  | .int n => .num (mkRat n 1)
+  | .bool b => .num (mkRat (if b then 1 else 0) 1)
+  | .float f => .num (mkRat f.num f.den)
+  | .dt t => (match t.tz with | none => .dtNaive t.instant | some _ => .dtAware t.instant)
+  | .uri u => .ident u
+  | .qn q => .str q.uri
+  | .lit v ty l => .lit v (ty.map (·.uri)) l
+
+/-- the members of `frozenset(self.attributes)` as `hash` sees them -/
+def Record.hkeys (r : Record) : List (String × HKey) := r.flat.map (fun p => (p.1.uri, p.2.hkey))
+
+/-- the arguments of `ProvRecord.__hash__`, `(type, identifier, frozenset(attributes))`, are the same for `hash` -/
+def recHashSame (a b : Record) : Bool :=
+  a.kind == b.kind && a.id.map (·.uri) == b.id.map (·.uri) &&
+    a.hkeys.all (fun x => b.hkeys.contains x) && b.hkeys.all (fun y => a.hkeys.contains y)
+
 /-- `set(records)`: keep the first representative of each `recEq` class -/
 def dedupRecs (rs : List Record) : List Record :=
   rs.foldl (fun acc r => if acc.any (fun x => recEq x r) then acc else acc ++ [r]) []
